@@ -56,10 +56,30 @@ def seeded():
     return "\n".join(out)
 
 
+def thorough():
+    p = os.path.join(ROOT, "sensitivity", "thorough_runs.log")
+    out = ["| check | result | cases | distinct non-trivial | wall s (16 shards, machine shared with other work) |", "|---|---|---|---|---|"]
+    if not os.path.exists(p):
+        return "\n".join(out)
+    last = {}
+    for l in open(p):
+        m = re.match(r"seed=(\d+) (C\d+) rc=(\d+) (.*)", l.strip())
+        if m:
+            last[m.group(2)] = (m.group(3), m.group(4))
+    for pid in sorted(last):
+        rc, rest = last[pid]
+        m = re.search(r"held on (\d+) cases \((\d+) distinct non-trivial\) in ([\d.]+)s", rest)
+        if m:
+            out.append("| %s | held | %s | %s | %s |" % (pid, m.group(1), m.group(2), m.group(3)))
+        else:
+            out.append("| %s | exit %s — %s | | | |" % (pid, rc, cell(rest, 200)))
+    return "\n".join(out)
+
+
 def main():
     p = os.path.join(ROOT, "DESIGN.md")
     s = open(p).read()
-    for name, fn in (("findings", findings), ("sens", sens), ("seeded", seeded)):
+    for name, fn in (("findings", findings), ("sens", sens), ("seeded", seeded), ("thorough", thorough)):
         pat = re.compile(r"(<!-- %s:begin -->\n).*?(<!-- %s:end -->)" % (name, name), re.S)
         if not pat.search(s):
             print("marker missing:", name)
